@@ -210,8 +210,11 @@ def check(tier, seed):
     for ln in core.read_lines(os.path.join(wd, "trace0.ndjson")):
         if '"ev":"Opt"' in ln[:12]:
             ev = json.loads(ln)
-            if len(ev["post"]["rules"]) > 2:
-                ev["post"]["rules"] = ev["post"]["rules"][:-1]
+            # drop the last rule whose removal is visible from the start symbol: one of the start symbol's own rules
+            # (several candidates are tried: within the length bound some alternatives contribute no word)
+            own = [i for i, r in enumerate(ev["post"]["rules"]) if r["lhs"] == ev["post"]["start"]]
+            if own:
+                del ev["post"]["rules"][own[-1]]
                 bp = os.path.join(wd, "negctl.ndjson")
                 open(bp, "w").write('{"ev":"Init"}\n' + json.dumps(ev, separators=(",", ":")) + "\n")
                 r = core.tlc_trace("Trace_Lang2", bp, tag="neg-C15")
